@@ -23,6 +23,7 @@ var opSym = map[string]string{
 // pctx: how names are rendered in the enclosing declaration.
 type pctx struct {
 	params [2]string
+	locals [2]string
 }
 
 func (e *Exp) cdc(c *pctx) string {
@@ -37,7 +38,7 @@ func (e *Exp) cdc(c *pctx) string {
 	case "field":
 		return fmt.Sprintf("self.x%d", e.I)
 	case "local":
-		return fmt.Sprintf("l%d", e.I)
+		return c.locals[e.I]
 	case "result":
 		return "result"
 	case "before":
@@ -110,9 +111,9 @@ func cdcStmts(ss []*Stmt, c *pctx, inIface bool, ind int) string {
 				fmt.Fprintf(&sb, "self.x%d = %s\n", s.I, s.E.cdc(c))
 			}
 		case "local":
-			fmt.Fprintf(&sb, "l%d = %s\n", s.I, s.E.cdc(c))
+			fmt.Fprintf(&sb, "%s = %s\n", c.locals[s.I], s.E.cdc(c))
 		case "call":
-			fmt.Fprintf(&sb, "l%d = self.f%d(%s, %s)\n", s.I, s.F, s.E.cdc(c), s.E2.cdc(c))
+			fmt.Fprintf(&sb, "%s = self.f%d(%s, %s)\n", c.locals[s.I], s.F, s.E.cdc(c), s.E2.cdc(c))
 		case "emit":
 			fmt.Fprintf(&sb, "emit Ev(k: %d, v: %s)\n", s.Z, s.E.cdc(c))
 		case "if":
@@ -197,12 +198,23 @@ type FDecl struct {
 	Body    []*Stmt // nil: no statements
 	HasBody bool
 	Params  [2]string
+	// names of the two body locals (top-level `var`s of the body). For the composite's own functions they are
+	// chosen among the parameter names of the inherited declarations of the same function, so that a body
+	// local shadows an interface parameter name that inherited conditions refer to.
+	Locals [2]string
+}
+
+func (d *FDecl) locals() [2]string {
+	if d.Locals[0] == "" {
+		return [2]string{"l0", "l1"}
+	}
+	return d.Locals
 }
 
 func (d *FDecl) hasConds() bool { return len(d.Pre)+len(d.Post) > 0 }
 
 func (d *FDecl) cdc(inIface bool, ind int) string {
-	c := &pctx{params: d.Params}
+	c := &pctx{params: d.Params, locals: d.locals()}
 	var sb strings.Builder
 	fmt.Fprintf(&sb, "%saccess(all) fun f%d(_ %s: Int, _ %s: Int): Int", indent(ind), d.Name, d.Params[0], d.Params[1])
 	if !d.HasBody && !d.hasConds() {
@@ -225,7 +237,7 @@ func (d *FDecl) cdc(inIface bool, ind int) string {
 		sb.WriteString(indent(ind+1) + "}\n")
 	}
 	if d.HasBody {
-		sb.WriteString(indent(ind+1) + "var l0 = 0\n" + indent(ind+1) + "var l1 = 0\n")
+		sb.WriteString(indent(ind+1) + "var " + c.locals[0] + " = 0\n" + indent(ind+1) + "var " + c.locals[1] + " = 0\n")
 		sb.WriteString(cdcStmts(d.Body, c, inIface, ind+1))
 	}
 	sb.WriteString(indent(ind) + "}\n")
